@@ -90,5 +90,12 @@ def fornext_closers():
 _c07_all = obligations
 
 
+def bundled_text():
+    """the bundled procedures are part of the emitted text: no template tag (`STRING<<>>`) of the tool survives in any
+    bundle at any string size (shared with C13)"""
+    from tx import p_c13
+    return [dict(o, id="bundle/" + o["id"]) for o in p_c13.real_library() if "placeholder" in o["id"] or o["id"].startswith("library")]
+
+
 def obligations():  # noqa: F811
-    return _c07_all() + fornext_closers()
+    return _c07_all() + fornext_closers() + bundled_text()
